@@ -105,6 +105,12 @@ type call struct {
 	// reader they are given: what the reader holds after it ("" nothing,
 	// "element", "stanza", "text") stays in the reader
 	trailing string
+	// resend > 0 (token forms of Send, SendIQ, SendMessage, SendPresence,
+	// TokenWriter): the application keeps the tokens and transmits the very same
+	// tokens 1+resend times, one call after the other; every call must put the
+	// element they denote on the wire
+	resend int
+	kept   []xml.Token
 
 	err      error
 	returned atomic.Bool // set after err/panicked (publishes them)
@@ -530,12 +536,18 @@ func genCall(t *rapid.T, idx int, ns, s2sFrom string, inHandler bool) *call {
 	}
 	switch c.entry {
 	case "TokenWriter":
-		if rapid.Bool().Draw(t, "flushMid") {
+		if rapid.IntRange(0, 3).Draw(t, "resends") == 0 {
+			c.resend = rapid.IntRange(1, 2).Draw(t, "resend")
+			arg += fmt.Sprintf(" (the same tokens are transmitted %d times)", 1+c.resend)
+		} else if rapid.Bool().Draw(t, "flushMid") {
 			c.flushAt = rapid.IntRange(1, 4).Draw(t, "flushAt")
 			arg += fmt.Sprintf(" (Flush after %d tokens)", c.flushAt)
 		}
 	case "Send", "SendIQ", "SendMessage", "SendPresence":
-		if rapid.IntRange(0, 2).Draw(t, "moreInReader") == 0 {
+		if rapid.IntRange(0, 3).Draw(t, "resends") == 0 {
+			c.resend = rapid.IntRange(1, 2).Draw(t, "resend")
+			arg += fmt.Sprintf(" (the same tokens are transmitted %d times)", 1+c.resend)
+		} else if rapid.IntRange(0, 2).Draw(t, "moreInReader") == 0 {
 			c.trailing = rapid.SampledFrom([]string{"element", "stanza", "text"}).Draw(t, "trailing")
 			arg += fmt.Sprintf(" (the reader holds more after the element: %s)", c.trailing)
 		}
@@ -547,6 +559,12 @@ func genCall(t *rapid.T, idx int, ns, s2sFrom string, inHandler bool) *call {
 // reader returns the token reader handed to the Send family: the element,
 // followed by whatever else the reader holds.
 func (c *call) reader() xml.TokenReader {
+	if c.resend > 0 {
+		if c.kept == nil {
+			c.kept = c.node.Tokens()
+		}
+		return xt.RawTokenReader(c.kept)
+	}
 	var rest []xml.Token
 	switch c.trailing {
 	case "":
@@ -642,6 +660,30 @@ func closeResp(r xmlstream.TokenReadCloser) {
 func (c *call) run(ctx context.Context, s *xmpp.Session) {
 	var resp xmlstream.TokenReadCloser
 	c.panicked = ev.Guard(func() {
+		for again := 0; again < c.resend && c.err == nil; again++ {
+			// the earlier transmissions of the same tokens
+			switch c.entry {
+			case "Send":
+				c.err = s.Send(ctx, c.reader())
+			case "SendIQ":
+				resp, c.err = s.SendIQ(ctx, c.reader())
+			case "SendMessage":
+				resp, c.err = s.SendMessage(ctx, c.reader())
+			case "SendPresence":
+				resp, c.err = s.SendPresence(ctx, c.reader())
+			case "TokenWriter":
+				w := s.TokenWriter()
+				_, c.err = xmlstream.Copy(w, c.reader())
+				if e := w.Close(); c.err == nil {
+					c.err = e
+				}
+			}
+			closeResp(resp)
+			resp = nil
+		}
+		if c.err != nil {
+			return
+		}
 		switch c.entry {
 		case "Send":
 			c.err = s.Send(ctx, c.reader())
@@ -653,7 +695,7 @@ func (c *call) run(ctx context.Context, s *xmpp.Session) {
 			c.err = s.EncodeElement(ctx, c.value(), *c.start)
 		case "TokenWriter":
 			w := s.TokenWriter()
-			r := c.node.Reader()
+			r := c.reader()
 			for n := 0; c.err == nil; n++ {
 				if n == c.flushAt && n < len(c.node.Tokens())-1 {
 					if c.err = w.Flush(); c.err != nil {
@@ -814,15 +856,20 @@ func check(t interface {
 		answered := map[string]bool{}
 		for {
 			items, _, _ := wire.ParseStream(sv.Conn.Output(), false, ns)
+			nth := map[string]int{}
 			for _, el := range wire.Elements(items) {
 				ms := map[string]bool{}
 				markers(el, ms)
 				for m := range ms {
 					c := byIdx[m]
-					if c == nil || !c.blocking || answered[m] {
+					// (a call that transmits the same tokens several times has several
+					// requests on the wire: each is answered)
+					nth[m]++
+					key := m + "#" + strconv.Itoa(nth[m])
+					if c == nil || !c.blocking || answered[key] {
 						continue
 					}
-					answered[m] = true
+					answered[key] = true
 					id, _ := el.Get("id")
 					var idb strings.Builder
 					_ = xml.EscapeText(&idb, []byte(id))
@@ -932,6 +979,7 @@ func check(t interface {
 		fail("output is not well-formed XML: %v\noutput: %s", perr, short(out))
 	}
 	seen := map[string]*xt.Node{}
+	copies := map[string]int{}
 	closes := 0
 	for _, it := range items {
 		switch it.Kind {
@@ -948,11 +996,18 @@ func check(t interface {
 				fail("top-level element carries the markers of %d calls (%v): %s", len(ms), ms, short(it.Raw))
 			}
 			for m := range ms {
-				if seen[m] != nil {
-					fail("call #%s has two elements on the wire", m)
-				}
 				if byIdx[m] == nil {
 					fail("unknown marker %q on the wire", m)
+				}
+				copies[m]++
+				if seen[m] != nil {
+					if copies[m] > 1+byIdx[m].resend {
+						fail("call #%s has %d elements on the wire", m, copies[m])
+					}
+					// a further transmission of the same tokens
+					if !wire.SameElement(it.Node, byIdx[m].expect) {
+						fail("call #%s: transmission %d of the same tokens put an element on the wire that differs from what they denote\n   wire:     %s\n   expected: %s", m, copies[m], short([]byte(it.Node.Canon())), short([]byte(byIdx[m].expect.Canon())))
+					}
 				}
 				seen[m] = it.Node
 			}
@@ -967,12 +1022,16 @@ func check(t interface {
 			fail("call #%d did not return", c.idx)
 		}
 		got := seen[strconv.Itoa(c.idx)]
+		if c.err == nil && tc.closeAt < 0 && copies[strconv.Itoa(c.idx)] != 1+c.resend {
+			fail("call #%d transmitted its tokens %d times, %d elements of it are on the wire", c.idx, 1+c.resend, copies[strconv.Itoa(c.idx)])
+		}
 		if c.err == nil && got == nil {
 			fail("call #%d returned nil but no element of it is on the wire\noutput: %s", c.idx, short(out))
 		}
 		if c.err != nil && tc.closeAt >= 0 && errors.Is(c.err, xmpp.ErrOutputStreamClosed) {
 			// the concurrent Close came first: nothing of the call may be on the wire
-			if got != nil {
+			// (of a call that transmits the same tokens several times: not all of them)
+			if got != nil && copies[strconv.Itoa(c.idx)] > c.resend {
 				fail("call #%d failed with %v but its complete element is on the wire", c.idx, c.err)
 			}
 			continue
@@ -1000,6 +1059,9 @@ func classify(tc tcase) (bool, []string) {
 		}
 		if c.trailing != "" {
 			classes = append(classes, "reader-holds-more-than-the-element")
+		}
+		if c.resend > 0 {
+			classes = append(classes, "same-tokens-transmitted-again")
 		}
 		if c.start != nil {
 			withStart = true
